@@ -281,8 +281,15 @@ impl C12 {
                     if o.playing && o.play_time + left + 4_000_000 > total {
                         left = (total.saturating_sub(o.play_time + 4_000_000)).min(left);
                     }
+                    let mut wr = Rng::new(op.arg(1) as u64 ^ 0x0F7E);
                     while left > 0 {
                         let before = e.verif_frame_clocks() as u64;
+                        // the program also writes the ULA port now and then (border, speaker, MIC): the EAR input is
+                        // the tape's level whatever was written
+                        if wr.below(48) == 0 {
+                            ctx.probe("system_ula_write_between_reads");
+                            e.verif_bus().write_io(0x00FE, wr.u8() & 0x1F);
+                        }
                         let v = (e.verif_bus().read_io(port) >> 6) & 1;
                         let after = e.verif_frame_clocks() as u64;
                         let dt = if after >= before { after - before } else { after + f - before };
@@ -351,7 +358,7 @@ impl Property for C12 {
         ]
     }
     fn expected_probes(&self) -> Vec<&'static str> {
-        vec!["stop_mid_pilot", "stop_mid_byte", "stop_in_pause", "stop_while_stopped", "play_after_end", "rewind_while_playing", "rewind_while_stopped", "ran_off_end", "stop_at_refill", "system_history", "stop_aimed_by_edge_count"]
+        vec!["stop_mid_pilot", "stop_mid_byte", "stop_in_pause", "stop_while_stopped", "play_after_end", "rewind_while_playing", "rewind_while_stopped", "ran_off_end", "stop_at_refill", "system_history", "stop_aimed_by_edge_count", "system_ula_write_between_reads"]
     }
 
     fn gen(&self, rng: &mut Rng, _tier: Tier, idx: u64) -> Scenario {
